@@ -1,6 +1,7 @@
 package main
 
 import (
+	"encoding/json"
 	"bytes"
 	"context"
 	"crypto/sha256"
@@ -17,6 +18,8 @@ import (
 	"github.com/cosmos/cosmos-sdk/store/prefix"
 	sdk "github.com/cosmos/cosmos-sdk/types"
 	authtypes "github.com/cosmos/cosmos-sdk/x/auth/types"
+	"github.com/cosmos/cosmos-sdk/x/params"
+	paramproposal "github.com/cosmos/cosmos-sdk/x/params/types/proposal"
 
 	"github.com/ethereum/go-ethereum/crypto"
 
@@ -193,6 +196,11 @@ func (e *Env) Exec(line string) string {
 		return ""
 	}
 	u := func(s string) uint64 { v, _ := strconv.ParseUint(s, 10, 64); return v }
+	if e.dead && w[0] != "reset" {
+		// a block function of this instance never returned: the goroutine it runs in still holds the locks of the
+		// stores, so nothing may touch them any more (the history ends here; the monitor has reported it)
+		return "deadlock"
+	}
 	switch w[0] {
 	case "reset":
 		return "ok" // handled by the caller (fresh Env)
@@ -218,7 +226,23 @@ func (e *Env) Exec(line string) string {
 				_ = mhub2.NewProposalsHandler(e.k)(c2, &types.TokenInfosChangeProposal{NewInfos: &types.TokenInfos{TokenInfos: l}})
 			}()
 		}
+		if len(w) > 1 && strings.HasPrefix(w[1], "restart:") && e.inited && !e.dead {
+			// a process restart of one node: replica <k> alone builds new keeper objects over its stores.  A node
+			// that restarted and a node that has been running since genesis must stay in step.
+			if k, _ := strconv.Atoi(strings.TrimPrefix(w[1], "restart:")); k == e.replica {
+				e.buildKeepers(false)
+			}
+		}
 		return "ok" // otherwise: a note to the monitors about how the external chains behave in this history
+	case "govchains":
+		// a passed governance ParameterChangeProposal on mhub2/Chains, executed by the params module's own handler
+		// (it writes the parameter subspace directly, as in the application)
+		return e.runTx(func(ctx sdk.Context) (string, error) {
+			val, _ := json.Marshal(strings.Split(w[1], ","))
+			prop := paramproposal.NewParameterChangeProposal("chains", "chains",
+				[]paramproposal.ParamChange{paramproposal.NewParamChange(types.DefaultParamspace, string(types.ParamChains), string(val))})
+			return "ok", params.NewParamChangeProposalHandler(e.pk)(ctx, prop)
+		})
 	case "init":
 		e.Init()
 		return "ok"
@@ -269,7 +293,39 @@ func (e *Env) Exec(line string) string {
 			pw, _ := strconv.ParseInt(p[1], 10, 64)
 			vals = append(vals, fakeVal{addr: sdk.ValAddress(b), power: pw, bonded: p[2] == "b"})
 		}
+		old := map[string]fakeVal{}
+		for _, v := range e.staking.vals {
+			old[string(v.addr)] = v
+		}
 		e.staking.Set(vals)
+		if e.inited {
+			// the staking module tells the bridge about validator-set changes through the keeper's
+			// real staking hooks (module/x/mhub2/keeper/hooks.go), exactly where the sdk calls them
+			r := e.runTx(func(ctx sdk.Context) (string, error) {
+				hk := e.k.Hooks()
+				for _, v := range e.staking.vals {
+					o, known := old[string(v.addr)]
+					cons := sdk.ConsAddress(v.addr)
+					switch {
+					case !known:
+						hk.AfterValidatorCreated(ctx, v.addr)
+						if v.bonded {
+							hk.AfterValidatorBonded(ctx, cons, v.addr)
+						}
+					case v.bonded && !o.bonded:
+						hk.AfterValidatorBonded(ctx, cons, v.addr)
+					case !v.bonded && o.bonded:
+						hk.AfterValidatorBeginUnbonding(ctx, cons, v.addr)
+					case v.power != o.power:
+						hk.BeforeValidatorModified(ctx, v.addr)
+					}
+				}
+				return "ok", nil
+			})
+			if r != "ok" {
+				return r
+			}
+		}
 		return "ok"
 	case "fund":
 		amt, ok := parseInt(w[3])
@@ -826,6 +882,12 @@ func (e *Env) Dump(what []string) string {
 			e.k.GetLatestSignerSetTxNonce(ctx, types.ChainID(what[1])),
 			e.k.GetLastObservedEventNonce(ctx, types.ChainID(what[1])),
 			hts.CosmosHeight, hts.ExternalHeight, los)
+	case len(what) == 1 && what[0] == "tokens":
+		var l []string
+		for _, t := range e.k.GetTokenInfos(ctx).TokenInfos {
+			l = append(l, fmt.Sprintf("%d|%s|%s|%s|%d|%s", t.Id, t.Denom, t.ChainId, t.ExternalTokenId, t.ExternalDecimals, t.Commission.BigInt()))
+		}
+		return "tokens " + strings.Join(l, ";")
 	case len(what) == 1 && what[0] == "status":
 		var st, fr []string
 		e.iterPrefix(ctx, []byte{types.TxStatusKey}, func(k, v []byte) {
